@@ -137,11 +137,13 @@ def build(tier, repo):
         "dot": "complex arm composes the conjugated dot product from four real dot products (checked by R6)",
         "dotu": "complex arm composes the unconjugated dot product from four real dot products (checked by R6)",
         "scal": "complex arm dispatches on the type of alpha (zscal / zdscal)"})
+    cw.routine_name_rule(r1, c, wrappers)
     r1.require(28)
 
     r2 = chk.rule("C17-R2", "keyword list = parse format = address arguments = documented signature; defaults as documented",
                   "documented defaults / argument names")
     cw.signature_rule(r2, c, wrappers)
+    cw.parse_target_rule(r2, c, wrappers)
     cw.naming_rule(r2, c, wrappers)
     rst_path = os.path.join(repo, "doc", "source", "blas.rst")
     rst = open(rst_path).read() if os.path.exists(rst_path) else ""
